@@ -82,7 +82,9 @@ def gen_history(rng, qu_ok, n_items=None):
             any_qu = False
             for _ in range(nq):
                 name, t = rng.choice(qpool)
-                q = DNSQuestion(name, t, const._CLASS_IN)
+                # the responder does not look at the question class: any class is answered, only the top bit means QU
+                cls = rng.choice([const._CLASS_IN] * 5 + [const._CLASS_ANY, 3, const._CLASS_NONE])
+                q = DNSQuestion(name, t, cls)
                 if qu_ok and rng.random() < 0.45:
                     q.unicast = True
                     any_qu = True
@@ -169,11 +171,49 @@ def canon_packet(data):
     return [m.flags, sorted(C.question_line(q) for q in m.questions), sorted(recs)]
 
 
+def question_classes(data):
+    """raw 16-bit class fields of the question section, read off the wire by a parser of our own (names are skipped:
+    labels up to a zero byte or a compression pointer); None when the section cannot be walked"""
+    if len(data) < 12:
+        return None
+    n = data[4] << 8 | data[5]
+    off = 12
+    out = []
+    try:
+        for _ in range(n):
+            while True:
+                b = data[off]
+                if b == 0:
+                    off += 1
+                    break
+                if b & 0xC0 == 0xC0:
+                    off += 2
+                    break
+                if b & 0xC0:
+                    return None
+                off += 1 + b
+            out.append(data[off + 2] << 8 | data[off + 3])
+            if off + 4 > len(data):
+                return None
+            off += 4
+    except IndexError:
+        return None
+    return out
+
+
 def features(data):
+    """what the listener model needs to know about a datagram.  `qclasses`: the question classes *from the wire* -- the
+    model derives has_qu_question from their top bit (generated leaf `unique_of`), so a parser that flags the wrong
+    packets as QU disagrees with the model.  For packets the real parser rejects (valid = False) the walk may stop at
+    a different place than the parser did, so there the parser's own flag is passed on (as one class with/without the bit)."""
     from zeroconf import DNSIncoming
 
     m = DNSIncoming(data)
-    return {"valid": bool(m.valid), "qu": bool(m.has_qu_question()), "query": bool(m.is_query()), "tc": bool(m.truncated)}
+    qc = question_classes(data)
+    if not m.valid or qc is None:
+        qc = [0x8001] if m.has_qu_question() else []
+    return {"valid": bool(m.valid), "qclasses": qc, "qu": any(c & 0x8000 for c in qc), "parser_qu": bool(m.has_qu_question()),
+            "query": bool(m.is_query()), "tc": bool(m.truncated)}
 
 
 def qu_signature(zc, data, port, now):
@@ -185,7 +225,8 @@ def qu_signature(zc, data, port, now):
 
     m = DNSIncoming(data, (QUERIER, port), None, now)
     out = {"qu": False, "qu_not_recent": False, "qm_answers": False, "qu_answers": False, "tc": False}
-    if not m.valid or not m.is_query() or not m.has_qu_question() or not zc.registry.has_entries:
+    # "has a QU question" is decided here from the decoded questions' own top class bit, not from the parser's summary flag
+    if not m.valid or not m.is_query() or not any(q.unique for q in m.questions) or not zc.registry.has_entries:
         return out
     out["qu"] = True
     out["tc"] = bool(m.truncated)
@@ -235,7 +276,7 @@ def simulate(case, dupmask, skip_d11=False):
 
     sim.randint = lib_randint              # picked up by Sim.run's patches
     sim.net_rng = KeyedRng(sim, "net")
-    obs = {"sends": [], "callbacks": [], "lblocks": [], "routes": [], "sigs": {}, "rul_calls": 0, "deliveries": [], "d11": []}
+    obs = {"sends": [], "callbacks": [], "lblocks": [], "routes": [], "sigs": {}, "rul_calls": 0, "deliveries": [], "d11": [], "d11sig": {}}
     saved = []
 
     class L(ServiceListener):
@@ -368,15 +409,19 @@ def simulate(case, dupmask, skip_d11=False):
                                    "tcdraw": tcdraw[0] if tcdraw else None, "tag": tag, "timers": timers_of(lst), "deferred": deferred_of(lst)})
 
         def deliver(data, src):
-            i = count["n"]
-            count["n"] += 1
-            obs["deliveries"].append([sim.now(), data[:2].hex(), len(data)])
+            # a delivery is identified by (time, bytes, source, occurrence), not by its position: an allowed extra unicast
+            # answer to the instance's own looped-back probe is itself delivered to the instance and shifts positions
+            k0 = "%d|%s|%s|%d" % (sim.now(), C.digest(data.hex()), src[0], src[1])
+            count[k0] = count.get(k0, 0) + 1
+            i = "%s|%d" % (k0, count[k0])
+            obs["deliveries"].append(i)
             twice = False
             if dupmask is not None:
                 sg = qu_signature(zc, data, src[1], float(sim.loop.ms))
                 d11 = known_sig(sg) is not None and not sg["tc"]
                 if d11:
                     obs["d11"].append(i)
+                    obs["d11sig"][i] = known_sig(sg)
                 twice = ((dupmask == "all" or (isinstance(dupmask, (set, frozenset)) and i in dupmask)) and not (skip_d11 and d11)
                          and sim.now() >= case.get("dup_after", 0))
                 if twice:
@@ -513,7 +558,7 @@ def model_lines(obs):
             if f is None:
                 f = feats[b["data"]] = features(bytes.fromhex(b["data"]))
             ops.append("r %s %s %d %d %d %s %s %s" % (C.hx(bytes.fromhex(b["data"])), C.hs(b["addr"]), b["port"], b["t"],
-                                                    b["tcdraw"][2] if b["tcdraw"] else 0, C.b01(f["valid"]), C.b01(f["qu"]), C.b01(b["entries"])))
+                                                    b["tcdraw"][2] if b["tcdraw"] else 0, C.b01(f["valid"]), C.natlist(f["qclasses"]), C.b01(b["entries"])))
         else:
             ops.append("t %s" % C.hs(b["addr"]))
     lines = ["c16run %d %s" % (len(ops), " ".join(ops))] if ops else []
@@ -562,9 +607,8 @@ WHAT = {
 
 def classify(case, ref, skip_d11):
     """find one delivery whose duplication alone changes the behaviour and name the failing class"""
-    n = len(ref["deliveries"])
     culprit = None
-    for i in range(n):
+    for i in ref["deliveries"]:
         one = simulate(case, {i}, skip_d11=skip_d11)
         if compare(ref, one) is not None:
             culprit = (i, one)
@@ -583,6 +627,18 @@ def classify(case, ref, skip_d11):
     return "C16:non-qu-duplicate-changes-behaviour", sg
 
 
+def shrink(case, sg):
+    """try the one-datagram history consisting of the culprit alone (when it was injected traffic)"""
+    if not sg or "data" not in sg:
+        return None, None
+    its = [it for it in case["items"] if it["data"] == sg["data"] and it["src"] == sg["src"]]
+    if not its:
+        return None, None
+    small = dict(case, items=[dict(its[0], gap=0)], dup_after=1000, start=max(case["start"], 2000), lookup=False)
+    d = compare(simulate(small, None), simulate(small, "all", skip_d11=True))
+    return (small, d) if d is not None else (None, None)
+
+
 def run_case(res, case, ctx, lines_acc):
     """reference vs everything duplicated except deliveries matching the known finding D11; when such deliveries
     exist, a third run duplicates them too and reports D11 under its own signature"""
@@ -597,8 +653,15 @@ def run_case(res, case, ctx, lines_acc):
     diff = compare(ref, dup)
     lines_acc.append((case, ref, dup, diff))
     if diff is not None:
-        sig, sg = classify(case, ref, True)
-        violate_limited(res, sig, "duplicated delivery changes the externally visible behaviour: " + diff["what"], {"case": case, "diff": diff, "culprit": sg})
+        res.count("paired-runs-that-differ")
+        if res.dist["paired-runs-that-differ"] <= 8:   # naming the culprit costs one run per delivery: do it for the first few
+            sig, sg = classify(case, ref, True)
+            small, sdiff = shrink(case, sg)
+            violate_limited(res, sig, "duplicated delivery changes the externally visible behaviour: " + (sdiff or diff)["what"],
+                            {"case": small or case, "diff": sdiff or diff, "culprit": sg, "shrunk_from": None if small is None else {"seed": case["seed"], "idx": case["idx"]}})
+        else:
+            violate_limited(res, "C16:duplicates-change-behaviour:unclassified", "duplicated delivery changes the externally visible behaviour: " + diff["what"],
+                            {"case": case, "diff": diff, "culprit": None})
     elif ref.get("cache") != dup.get("cache"):
         # not an observation of the property: an allowed extra unicast answer to the instance's own looped-back
         # probe is received by the instance itself and refreshes `created` of its cached copies
@@ -611,6 +674,17 @@ def run_case(res, case, ctx, lines_acc):
         d2 = compare(ref, full)
         if d2 is not None and diff is None:
             sig, sg = classify(case, ref, False)
+            if sig.endswith("no-single-culprit"):
+                # the main run (everything duplicated except deliveries matching a recorded finding) was equivalent, so the
+                # difference needs several of those deliveries together: attribute it by duplicating them alone, per finding
+                by = {k: {i for i, v in dup["d11sig"].items() if v == k} for k in (D11B_SIG, D11_SIG)}
+                for k in (D11B_SIG, D11_SIG):
+                    if by[k] and compare(ref, simulate(case, by[k])) is not None:
+                        sig = k
+                        break
+                else:
+                    if compare(ref, simulate(case, by[D11B_SIG] | by[D11_SIG])) is not None:
+                        sig = D11B_SIG if by[D11B_SIG] else D11_SIG
             what = WHAT.get(sig, "duplicated delivery changes the externally visible behaviour: " + d2["what"])
             violate_limited(res, sig, what, {"case": case, "diff": d2, "culprit": sg})
     return diff
@@ -660,7 +734,7 @@ def run(ctx):
     for name, body in C.load_corpus("C16"):
         run_case(res, body["case"], ctx, acc)
         res.count("corpus")
-    n = C.Budget(ctx["tier"], 1000, 20000).n
+    n = C.Budget(ctx["tier"], 700, 20000).n
     if ctx["widened"]:
         n *= 2
     for idx in range(n):
